@@ -383,7 +383,8 @@ fn define_trait_impl(
         }
     }
 
-    for method_name in trait_method_names.iter() {
+    // in declaration order, so that the diagnostics do not depend on hashing
+    for method_name in trait_def.methods.keys() {
         if !implemented_methods.contains(method_name) {
             diagnostics.push(Diagnostic::new(
                 Stage::Typer,
